@@ -20,10 +20,12 @@ import JsonV.Lemmas.EncInvL
 import JsonV.Lemmas.EncInvCompose
 import JsonV.Lemmas.EncInvTree
 import JsonV.Lemmas.EncInvState
+import JsonV.Lemmas.EncInvFloor
 
 namespace JsonV.Props.C02
 open JsonV JsonV.Model JsonV.Spec.ValidJson JsonV.Model.EncInv
 open JsonV.Lemmas.EncInvL JsonV.Lemmas.EncInvCompose JsonV.Lemmas.EncInvTree JsonV.Lemmas.EncInvState
+open JsonV.Lemmas.EncInvFloor
 
 /-! ### the raw fragments are values (arshal_default.go:143, 479, 578, 829, 1509; arshal_any.go:125, 241) -/
 
@@ -139,45 +141,52 @@ def escapeScript (k : Nat) (m : Machine) : Except SMErr Machine := do
   let m ← m.appendLiteral
   m.appendLiteral
 
-/-- **The (depth, length) comparison alone does not imply "one value was written".**  The escape script
-succeeds, ends at the same depth with length + 1 — exactly what the check tests — yet it has closed the
-enclosing array and opened another (the saved parent entry changed).  This is the machine-checked form
-of the defect that harness/c02.go finds in /repo (violation kind `container-escape`). -/
+/-- **The (depth, length) comparison alone does not imply "one value was written".**  On the bare state
+machine the escape script succeeds, ends at the same depth with length + 1 — exactly what the comparison
+tests — yet it has closed the enclosing array and opened another (the saved parent entry changed).
+This was defect D6 of /repo (found by harness/c02.go).  Since commit a29e0ae the code no longer relies on
+that comparison alone: the state machine carries a floor that user code cannot pop below — see
+`escape_refused_under_floor` and `one_value` below. -/
 theorem depth_length_check_insufficient : ∃ m', escapeScript 10000 inArray1 = .ok m' ∧
     m'.depthLength = (inArray1.depth, inArray1.last.length + 1) ∧ m'.stack ≠ inArray1.stack :=
   ⟨{ stack := [Entry.typeArray.increment.increment], last := Entry.typeArray.increment.increment },
     by rfl, by decide, by decide⟩
 
-inductive Op where
-  | lit | str | num | pushO | popO | pushA | popA
-deriving DecidableEq, Repr
+/-- The same script under the floor of its entry depth (what MarshalJSONTo / MarshalToFunc now run under):
+the very first token is refused with `errEnclosingEnd`. -/
+theorem escape_refused_under_floor :
+    runF 10000 inArray1.stack.length inArray1 [.popA, .pushA, .lit, .lit] = .error .enclosingEnd := by
+  rfl
 
-def step (k : Nat) (m : Machine) : Op → Except SMErr Machine
-  | .lit => m.appendLiteral
-  | .str => m.appendString
-  | .num => m.appendNumber
-  | .pushO => m.pushObject k
-  | .popO => m.popObject
-  | .pushA => m.pushArray k
-  | .popA => m.popArray
+/-- **Exactly one value.**  Let a script of state-machine operations run under the floor of its entry depth
+(`runF`: `popObject`/`popArray` are refused when `stack.length ≤ floor`, as in state.go since a29e0ae).
+If it ends without error at the entry depth with the length of the current container advanced by one —
+the test of arshal_methods.go:227 / arshal_funcs.go:226 — then the script is exactly one complete JSON value:
+nothing left open, nothing closed that it did not open itself (with matching kinds), one top-level item
+(`wroteOneValue`, an executable reading: a scalar token or one balanced container).
+Side condition: the 61-bit element counter does not wrap during the script. -/
+theorem one_value (k : Nat) (m t : Machine) (ops : List Op)
+    (h : runF k m.stack.length m ops = .ok t) (hd : t.depth = m.depth)
+    (hl : t.last.length = m.last.length + 1) (hb : m.last.length + ops.length < 2^61) :
+    wroteOneValue ops :=
+  one_value_floor k m t ops h hd hl hb
 
-/-- all intermediate machines of a successful run (the start excluded) -/
-def trace (k : Nat) : Machine → List Op → Option (List Machine)
-  | _, [] => some []
-  | m, op :: ops =>
-    match step k m op with
-    | .ok m' => (trace k m' ops).map (m' :: ·)
-    | .error _ => none
+/-- In general (any start, any kinds, counting included): a successful run under the floor follows `scan`. -/
+theorem run_follows_scan (k : Nat) (m t : Machine) (ops : List Op)
+    (h : runF k m.stack.length m ops = .ok t) (hb : m.last.length + ops.length < 2^61) :
+    ∃ ks n, scan [] 0 ops = some (ks, n) ∧ t.stack.length = m.stack.length + ks.length := by
+  obtain ⟨e0', ks', n', hscan, ⟨_, hpos⟩, _⟩ :=
+    run_scan k m.stack ops m t m.last [] 0 m.last.length h ⟨Nat.le_refl _, .inl ⟨rfl, rfl, rfl⟩⟩ hb
+  refine ⟨ks', n', hscan, ?_⟩
+  rcases hpos with ⟨h1, _, h3⟩ | ⟨es, h1, h2, _⟩
+  · simp [h1, h3]
+  · simp [h1, h2]
 
-/-- The repaired statement: a script that never goes below its entry depth and ends with the same stack and
-the entry advanced by one has touched the entry level exactly once (at its very end) — it wrote exactly one
-value.  NOT proved (validated: every nil-error output of a script that stays at or above its entry depth is
-judged to be exactly one value by the harness). -/
-def one_value_full : Prop :=
-  ∀ (k : Nat) (m : Machine) (ops : List Op) (ms : List Machine), trace k m ops = some ms →
-    (∀ s ∈ ms, m.stack.length ≤ s.stack.length) →
-    (∃ mf, ms.getLast? = some mf ∧ mf.stack = m.stack ∧ mf.last = m.last.increment) →
-    ∀ s ∈ ms.dropLast, m.stack.length < s.stack.length
+example : wroteOneValue [.pushA, .lit, .pushO, .str, .num, .popO, .popA] := by decide
+example : ¬ wroteOneValue [.popA, .pushA, .lit, .lit] := by decide
+example : ∃ t, runF 10000 inArray1.stack.length inArray1 [.pushO, .str, .lit, .popO] = .ok t ∧
+    t.depth = inArray1.depth ∧ t.last.length = inArray1.last.length + 1 :=
+  ⟨_, rfl, by decide, by decide⟩
 
 /-! ### the hypotheses are satisfiable -/
 
